@@ -1,8 +1,12 @@
 (* C18 — property theorems only.  Each is closed by [exact] of a lemma from the Proofs
-   files and followed by Print Assumptions. *)
+   files and followed by Print Assumptions; the Examples show that the hypotheses are
+   satisfiable and pin the statements to concrete inputs. *)
 From Common Require Import Prelude.
+From Coq Require Import QArith Qabs.
 From C18 Require Import Model ProofsStr ProofsUrl ProofsFile ProofsArgs ProofsPretty.
 Local Open Scope N_scope.
+
+(* ===================================================================== StringManip.h *)
 
 (* longestBeginningMatch is the longest common prefix: a prefix of both, every common
    prefix is a prefix of it, and the characters that follow it (if both exist) differ *)
@@ -35,3 +39,338 @@ Print Assumptions split_char_join.
 Example split_char_example :
   split_char [97; 58; 58; 98; 99; 58] 58 = [[97]; []; [98; 99]].
 Proof. vm_compute. reflexivity. Qed.
+
+(* split on a delimiter SET: the input is  sep_1 t_1 sep_2 t_2 ... sep_n t_n trail  where every
+   sep_i and trail consist of delimiters only, every sep_i but possibly the first is non-empty,
+   every t_i is non-empty and delimiter-free — i.e. t_1..t_n are exactly the maximal
+   delimiter-free runs, in order, none dropped whatever its length.  Without keepDelim the
+   result is t_1..t_n; with keepDelim every t_i is preceded by the last character of sep_i
+   (the delimiter in front of it; nothing for a token that starts the input). *)
+Theorem split_set_tokens : forall s delims,
+  let isd := fun c => mem c delims in
+  exists seps core trail,
+    length seps = length core /\
+    Forall (all_in isd true) (trail :: seps) /\
+    Forall (fun sp => sp <> []) (tl seps) /\
+    Forall (tok_ok isd) core /\
+    s = wv seps core ++ trail /\
+    split_set s delims false = core /\
+    split_set s delims true = zipw true seps core.
+Proof. exact ProofsStr.split_set_tokens. Qed.
+Print Assumptions split_set_tokens.
+
+Theorem split_set_concat : forall s delims,
+  concat (split_set s delims false) = filter (fun c => negb (mem c delims)) s /\
+  Forall (fun t => t <> [] /\ forall c, In c t -> mem c delims = false) (split_set s delims false).
+Proof. exact ProofsStr.split_set_concat. Qed.
+Print Assumptions split_set_concat.
+
+(* "a, b,,c" on {',', ' '} : 1-character tokens kept; keepDelim puts the delimiter in front of
+   every token but the leading one *)
+Example split_set_example :
+  split_set [97; 44; 32; 98; 44; 44; 99] [44; 32] false = [[97]; [98]; [99]] /\
+  split_set [97; 44; 32; 98; 44; 44; 99] [44; 32] true = [[97]; [32; 98]; [44; 99]].
+Proof. vm_compute. split; reflexivity. Qed.
+
+(* tokenize (PseudoURL.cpp): the same statement — every non-empty run between delimiters is
+   kept, including runs of length 1 *)
+Theorem tokenize_tokens : forall s d,
+  let isd := fun c => N.eqb c d in
+  exists seps core trail,
+    length seps = length core /\
+    Forall (all_in isd true) (trail :: seps) /\
+    Forall (fun sp => sp <> []) (tl seps) /\
+    Forall (tok_ok isd) core /\
+    s = wv seps core ++ trail /\
+    tokenize s d = core.
+Proof. exact ProofsStr.tokenize_tokens. Qed.
+Print Assumptions tokenize_tokens.
+
+Theorem tokenize_concat : forall s d,
+  concat (tokenize s d) = filter (fun c => negb (N.eqb c d)) s /\
+  Forall (fun t => t <> [] /\ ~ In d t) (tokenize s d).
+Proof. exact ProofsStr.tokenize_concat. Qed.
+Print Assumptions tokenize_concat.
+
+Theorem tokenize_is_split_set : forall s d, tokenize s d = split_set s [d] false.
+Proof. exact ProofsStr.tokenize_is_split_set. Qed.
+Print Assumptions tokenize_is_split_set.
+
+(* /repo before the repair ("> 1"): "a:bc:d" lost its 1-character tokens *)
+Theorem tokenize_old_refuted :
+  exists s d, tokenize_old s d <> tokenize s d /\ tokenize_old s d <> split_set s [d] false.
+Proof. exact ProofsStr.tokenize_old_drops. Qed.
+Print Assumptions tokenize_old_refuted.
+
+Example tokenize_example :
+  tokenize [97; 58; 98; 99; 58; 58; 100] 58 = [[97]; [98; 99]; [100]] /\
+  tokenize_old [97; 58; 98; 99; 58; 58; 100] 58 = [[98; 99]].
+Proof. vm_compute. split; reflexivity. Qed.
+
+Theorem lower_pointwise : forall s,
+  length (lowerCase s) = length s /\
+  forall i c, nth_error s i = Some c ->
+    nth_error (lowerCase s) i = Some (if (65 <=? c) && (c <=? 90) then c + 32 else c).
+Proof. exact ProofsStr.lower_pointwise. Qed.
+Print Assumptions lower_pointwise.
+
+Theorem upper_pointwise : forall s,
+  length (upperCase s) = length s /\
+  forall i c, nth_error s i = Some c ->
+    nth_error (upperCase s) i = Some (if (97 <=? c) && (c <=? 122) then c - 32 else c).
+Proof. exact ProofsStr.upper_pointwise. Qed.
+Print Assumptions upper_pointwise.
+
+(* ======================================================================= PseudoURL *)
+
+(* For a type without "://", a non-empty file name without ':', and name=value pairs whose
+   names are non-empty and free of ':' and '=' and whose values are free of ':' (values may be
+   empty and may contain '='):  parsing  type "://" file {":" name "=" value}  returns exactly
+   those parts; getValue returns the value of the LAST pair with that name; hasParam holds
+   exactly for the names present; getValue throws (None) exactly for the others. *)
+Theorem pseudourl_parse_assemble : forall ty file ps,
+  (forall a b, ty <> a ++ sep3 ++ b) /\
+  file <> [] /\ ~ In 58 file /\
+  Forall (fun p => fst p <> [] /\ ~ In 58 (fst p) /\ ~ In 61 (fst p) /\ ~ In 58 (snd p)) ps ->
+  let u := purl_parse (ty ++ sep3 ++ file ++ concat (map (fun p => 58 :: fst p ++ 61 :: snd p) ps)) in
+  u_type u = ty /\ u_file u = file /\ u_params u = ps /\
+  (forall name v, getValue u name = Some v <->
+     exists l1 l2, ps = l1 ++ (name, v) :: l2 /\ (forall v', ~ In (name, v') l2)) /\
+  (forall name, hasParam u name = true <-> exists v, In (name, v) ps) /\
+  (forall name, getValue u name = None <-> forall v, ~ In (name, v) ps).
+Proof. exact ProofsUrl.pseudourl_parse_assemble. Qed.
+Print Assumptions pseudourl_parse_assemble.
+
+(* for every parsed URL, well-formed or not *)
+Theorem getValue_last_duplicate : forall u name v,
+  getValue u name = Some v <->
+  exists l1 l2, u_params u = l1 ++ (name, v) :: l2 /\ (forall v', ~ In (name, v') l2).
+Proof. exact ProofsUrl.getValue_last. Qed.
+Print Assumptions getValue_last_duplicate.
+
+Theorem hasParam_iff_present : forall u name,
+  hasParam u name = true <-> exists v, In (name, v) (u_params u).
+Proof. exact ProofsUrl.hasParam_iff. Qed.
+Print Assumptions hasParam_iff_present.
+
+Theorem getValue_throws_iff_absent : forall u name, getValue u name = None <-> hasParam u name = false.
+Proof. exact ProofsUrl.getValue_none. Qed.
+Print Assumptions getValue_throws_iff_absent.
+
+(* with the old tokenize a well-formed URL with a 1-character file name parsed wrongly *)
+Theorem pseudourl_old_refuted :
+  exists ty file ps, wf_parts ty file ps /\
+    purl_parse_old (assemble ty file ps) <> {| u_type := ty; u_file := file; u_params := ps |}.
+Proof. exact ProofsUrl.purl_parse_old_refuted. Qed.
+Print Assumptions pseudourl_old_refuted.
+
+(* "t://f:n=1:m=:n=2" : 1-character parts, an empty value, a duplicate *)
+Example pseudourl_example :
+  let u := purl_parse [116; 58; 47; 47; 102; 58; 110; 61; 49; 58; 109; 61; 58; 110; 61; 50] in
+  u_type u = [116] /\ u_file u = [102] /\ u_params u = [([110], [49]); ([109], []); ([110], [50])] /\
+  getValue u [110] = Some [50] /\ getValue u [109] = Some [] /\ getValue u [122] = None /\
+  hasParam u [109] = true /\ hasParam u [122] = false.
+Proof. vm_compute. repeat split; reflexivity. Qed.
+
+(* ======================================================================== FileName *)
+
+(* what the constructors produce: no backslash, no trailing separator; idempotent *)
+Theorem filename_normalised : forall s,
+  (~ In BSL (fn_norm s) /\ forall g, fn_norm s <> g ++ [SEP]) /\ fn_norm (fn_norm s) = fn_norm s.
+Proof. exact ProofsFile.fn_norm_spec. Qed.
+Print Assumptions filename_normalised.
+
+(* f = path ++ base; base is the last component (no separator; path is empty or ends with
+   one).  Either the last component has no dot: name = base, ext = "", dropExt = f,
+   setExt(e) = FileName(f ++ e); or base = name ++ "." ++ ext where ext is dot-free (taken
+   after the last dot of the LAST COMPONENT), dropExt = FileName(path ++ name) and
+   setExt(e) = FileName(path ++ name ++ e).  Holds for every string, in particular for
+   hidden files (name = ""), dots in directory names, and after trailing separators were
+   stripped. *)
+Theorem filename_decompose : forall f,
+  let path := fn_path f in let base := fn_base f in
+  f = path ++ base /\ ~ In SEP base /\ (path = [] \/ exists p, path = p ++ [SEP]) /\
+  ((~ In DOT base /\ fn_name f = base /\ fn_ext f = [] /\ fn_dropExt f = f /\
+    forall x, fn_setExt f x = fn_norm (f ++ x)) \/
+   (In DOT base /\ base = fn_name f ++ DOT :: fn_ext f /\ ~ In DOT (fn_ext f) /\
+    fn_dropExt f = fn_norm (path ++ fn_name f) /\
+    forall x, fn_setExt f x = fn_norm (path ++ fn_name f ++ x))).
+Proof. exact ProofsFile.filename_cases. Qed.
+Print Assumptions filename_decompose.
+
+Theorem filename_ext_last_component : forall f,
+  fn_ext f = fn_ext (fn_base f) /\ fn_name f = fn_name (fn_base f).
+Proof. exact ProofsFile.ext_last_component. Qed.
+Print Assumptions filename_ext_last_component.
+
+(* recomposition for FileName values *)
+Theorem filename_setExt_own_ext : forall f,
+  normal f -> In DOT (fn_base f) -> fn_setExt f (DOT :: fn_ext f) = f.
+Proof. exact ProofsFile.setExt_own_ext. Qed.
+Print Assumptions filename_setExt_own_ext.
+
+Theorem filename_dropExt_addExt : forall f,
+  normal f -> In DOT (fn_base f) -> fn_name f <> [] ->
+  fn_addExt (fn_dropExt f) (DOT :: fn_ext f) = f.
+Proof. exact ProofsFile.dropExt_addExt. Qed.
+Print Assumptions filename_dropExt_addExt.
+
+Theorem filename_no_ext : forall f,
+  normal f -> ~ In DOT (fn_base f) -> fn_dropExt f = f /\ fn_setExt f [] = f /\ fn_addExt f [] = f.
+Proof. exact ProofsFile.dropExt_no_ext. Qed.
+Print Assumptions filename_no_ext.
+
+(* operator+ appends one component: path() is the left operand plus separator, base() the right *)
+Theorem filename_plus_component : forall a b,
+  normal a -> a <> [] -> normal b -> b <> [] -> ~ In SEP b ->
+  fn_plus a b = a ++ SEP :: b /\ fn_path (fn_plus a b) = a ++ [SEP] /\ fn_base (fn_plus a b) = b.
+Proof. exact ProofsFile.plus_component. Qed.
+Print Assumptions filename_plus_component.
+
+Theorem filename_plus_recompose : forall p b,
+  normal p -> p <> [] -> normal b -> b <> [] -> ~ In SEP b ->
+  let f := fn_plus p b in fn_plus (fn_norm (fn_path f)) (fn_base f) = f.
+Proof. exact ProofsFile.plus_path_base. Qed.
+Print Assumptions filename_plus_recompose.
+
+(* ext()/dropExt() of /repo before the repair: "dir.d/file" had extension "d/file" *)
+Theorem filename_ext_old_refuted :
+  exists f, normal f /\ ~ In DOT (fn_base f) /\ fn_ext_old f <> [] /\ fn_ext_old f <> fn_ext f /\
+            fn_dropExt_old f <> fn_dropExt f /\ fn_base f <> fn_name f ++ DOT :: fn_ext_old f.
+Proof. exact ProofsFile.filename_ext_old_refuted. Qed.
+Print Assumptions filename_ext_old_refuted.
+
+(* instances: ".bashrc"; "dir.d/file"; "a\b.c//" *)
+Example filename_hidden :
+  let f := fn_norm [46; 98; 97; 115; 104; 114; 99] in
+  fn_path f = [] /\ fn_name f = [] /\ fn_ext f = [98; 97; 115; 104; 114; 99] /\ fn_dropExt f = [].
+Proof. exact ProofsFile.inst_hidden. Qed.
+Example filename_dot_in_dir :
+  let f := fn_norm [100; 105; 114; 46; 100; 47; 102; 105; 108; 101] in
+  fn_path f = [100; 105; 114; 46; 100; 47] /\ fn_base f = [102; 105; 108; 101] /\
+  fn_name f = [102; 105; 108; 101] /\ fn_ext f = [] /\ fn_dropExt f = f.
+Proof. exact ProofsFile.inst_dot_in_dir. Qed.
+Example filename_trailing_sep :
+  let f := fn_norm [97; 92; 98; 46; 99; 47; 47] in
+  f = [97; 47; 98; 46; 99] /\ fn_path f = [97; 47] /\ fn_name f = [98] /\ fn_ext f = [99] /\
+  fn_dropExt f = [97; 47; 98] /\ fn_setExt f [46; 120] = [97; 47; 98; 46; 120].
+Proof. exact ProofsFile.inst_trailing. Qed.
+
+(* ==================================================================== ArgumentList *)
+
+(* ArgumentList(ac, av) drops av[0]; remove(where, k) deletes exactly [where, where+k) *)
+Theorem arglist_remove_spec : forall (av : list str) w k,
+  al_remove (al_ctor av) w k = firstn w (tl av) ++ skipn (w + k) (tl av).
+Proof. exact ProofsArgs.arglist_remove_spec. Qed.
+Print Assumptions arglist_remove_spec.
+
+(* parseAndRemove for ANY tryConsume with 0 <= tryConsume(l, i) <= size - i:  it terminates and
+   the final list is the one described by [run]: walking the original arguments from the
+   left, an argument is kept when tryConsume answers 0 on the list as it is then (kept
+   arguments followed by the not yet visited ones), and the next n arguments are dropped when
+   it answers n > 0.  The result is a subsequence of the input (original order, nothing
+   invented) and it is the only list [run] admits. *)
+Theorem arglist_remaining : forall tryConsume : list str -> nat -> nat,
+  (forall l i, (i < length l)%nat -> (tryConsume l i <= length l - i)%nat) ->
+  forall l, exists res,
+    parseAndRemove tryConsume l = Some res /\ run tryConsume [] l res /\ subseq res l /\
+    (forall res', run tryConsume [] l res' -> res' = res).
+Proof. exact ProofsArgs.arglist_remaining. Qed.
+Print Assumptions arglist_remaining.
+
+(* "-x" takes one value, everything else is kept: [a; -x; 1; b; -x] -> [a; b] *)
+Definition tc_example (l : list str) (i : nat) : nat :=
+  if str_eqb (nth i l []) [45; 120] then Nat.min 2 (length l - i) else 0%nat.
+Example arglist_example_bound : forall l i, (i < length l)%nat -> (tc_example l i <= length l - i)%nat.
+Proof. intros l i H. unfold tc_example. destruct (str_eqb _ _); lia. Qed.
+Example arglist_example :
+  parseAndRemove tc_example [[97]; [45; 120]; [49]; [98]; [45; 120]] = Some [[97]; [98]].
+Proof. vm_compute. reflexivity. Qed.
+
+Theorem removeArgs_spec : forall (d : str) ac av w k,
+  length av = ac -> (w + k <= ac)%nat ->
+  fst (removeArgs d ac av w k) = (ac - k)%nat /\
+  length (snd (removeArgs d ac av w k)) = ac /\
+  firstn (ac - k) (snd (removeArgs d ac av w k)) = firstn w av ++ skipn (w + k) av.
+Proof. exact (@ProofsArgs.removeArgs_spec str). Qed.
+Print Assumptions removeArgs_spec.
+
+Example removeArgs_example :
+  removeArgs [] 5 [[97]; [98]; [99]; [100]; [101]] 1 2 = (3%nat, [[97]; [100]; [101]; [100]; [101]]).
+Proof. vm_compute. reflexivity. Qed.
+
+(* ============================================================ prettyDouble/Number *)
+Local Open Scope Q_scope.
+
+(* prettyDouble for 1e3 <= |v| < 1000 * 1e18f (all thresholds at the exact values of the float
+   literals): the suffix is the SI letter of 10^k, the printed mantissa is v divided by the
+   float literal nearest 10^k (relative error <= 2^-24), it lies in [1, 1000) and multiplies
+   back to v exactly. *)
+Theorem pretty_suffix_large : forall v : Q,
+  inject_Z F1e03 <= Qabs v -> Qabs v < inject_Z (1000 * F1e18) ->
+  let c := pd_choice v in
+  pc_wf c = true /\ pc_mul c = false /\
+  1 <= Qabs (pretty_mantissa c v) /\ Qabs (pretty_mantissa c v) < 1000 /\
+  Qabs v == Qabs (pretty_mantissa c v) * inject_Z (pc_factor c).
+Proof. exact ProofsPretty.pretty_suffix_large. Qed.
+Print Assumptions pretty_suffix_large.
+
+(* prettyDouble for 1/1e15f <= |v| <= 1: the mantissa is v times the float literal; because the
+   literals 1e-12f..1e-3f and 1e15f, 1e12f are not powers of ten the interval [1, 1000] holds
+   up to a relative 2^-23 at the exact thresholds (far below the printed precision 0.05) *)
+Theorem pretty_suffix_small : forall v : Q,
+  / inject_Z F1e15 <= Qabs v -> Qabs v <= 1 ->
+  let c := pd_choice v in
+  pc_wf c = true /\ pc_mul c = true /\
+  1 - (1 # 8388608) <= Qabs (pretty_mantissa c v) /\
+  Qabs (pretty_mantissa c v) <= 1000 * (1 + (1 # 8388608)) /\
+  Qabs (pretty_mantissa c v) == Qabs v * inject_Z (pc_factor c).
+Proof. exact ProofsPretty.pretty_suffix_small. Qed.
+Print Assumptions pretty_suffix_small.
+
+Theorem pretty_plain_between : forall v : Q,
+  1 < Qabs v -> Qabs v < inject_Z F1e03 -> pc_suffix (pd_choice v) = 0%N.
+Proof. exact ProofsPretty.pretty_plain. Qed.
+Print Assumptions pretty_plain_between.
+
+(* prettyNumber(s): d = (double)s; same statement for d >= 1000 (every size_t is < 1000*1e18f) *)
+Theorem pretty_number_suffix : forall s : N,
+  let d := Z.of_N (double_of_N s) in
+  (F1e03 <= d < 1000 * F1e18)%Z ->
+  let c := pn_choice s in
+  pc_wf c = true /\ pc_mul c = false /\
+  1 <= pretty_mantissa c (inject_Z d) /\ pretty_mantissa c (inject_Z d) < 1000 /\
+  inject_Z d == pretty_mantissa c (inject_Z d) * inject_Z (pc_factor c).
+Proof. exact ProofsPretty.pretty_number_suffix. Qed.
+Print Assumptions pretty_number_suffix.
+
+Theorem pretty_number_plain : forall s : N,
+  (Z.of_N (double_of_N s) < F1e03)%Z -> pc_suffix (pn_choice s) = 0%N.
+Proof. exact ProofsPretty.pretty_number_plain. Qed.
+Print Assumptions pretty_number_plain.
+
+Theorem pretty_number_exact_below_2p53 : forall s : N, (s < 2 ^ 53)%N -> double_of_N s = s.
+Proof. exact ProofsPretty.double_of_N_exact. Qed.
+Print Assumptions pretty_number_exact_below_2p53.
+
+(* the 'E' branch of /repo before the repair swallowed [1e15f, 1e18f): 2e16 -> "0.0E" *)
+Theorem pretty_exa_old_refuted :
+  exists v : Q,
+    inject_Z F1e15 <= v /\ v < inject_Z F1e18 /\
+    pc_suffix (pd_choice_old v) = 69%N /\ pretty_mantissa (pd_choice_old v) v < 1 /\
+    pc_suffix (pd_choice v) = 80%N /\
+    pc_suffix (pn_choice_old 20000000000000000) = 69%N /\ pc_suffix (pn_choice 20000000000000000) = 80%N.
+Proof. exact ProofsPretty.pretty_exa_old_refuted. Qed.
+Print Assumptions pretty_exa_old_refuted.
+
+(* thresholds sit at the float values: 1e18f = 999999984306749440 prints with E, one below with P;
+   10^15 (above 1e15f = 999999986991104) with P; 1/4096 with u; 2^60 is rounded exactly *)
+Example pretty_threshold_examples :
+  pc_suffix (pd_choice (inject_Z 999999984306749440)) = 69%N /\
+  pc_suffix (pd_choice (inject_Z 999999984306749439)) = 80%N /\
+  pc_suffix (pn_choice 1000000000000000) = 80%N /\
+  pc_suffix (pn_choice 999999986991103) = 84%N /\
+  pc_suffix (pd_choice (1 # 4096)) = 117%N /\
+  pc_suffix (pd_choice (- (3 # 2))) = 0%N /\
+  double_of_N (2 ^ 60 + 1) = (2 ^ 60)%N.
+Proof. vm_compute. repeat split; reflexivity. Qed.
